@@ -382,6 +382,42 @@ pub fn run_one(ctx: &mut Ctx, stream: &str, n: u64, bytes: &[u8], label: &str) {
 
 pub fn run(ctx: &mut Ctx) {
     ctx.set_case_cpu_limit(60);
+    if ctx.mode == "emit-corpus" {
+        // seed corpus for the libFuzzer target: fixtures + structure-aware hostile documents
+        let dir = std::env::var("SMV_DIR").expect("SMV_DIR");
+        std::fs::create_dir_all(&dir).unwrap();
+        for (i, (_, b)) in load_fixtures().iter().enumerate() {
+            if b.len() <= 16 * 1024 {
+                std::fs::write(format!("{dir}/fixture-{i}"), b).unwrap();
+            }
+        }
+        for n in 0..600u64 {
+            let mut rng = ctx.begin("corpus", n);
+            let (text, _) = hostile_doc(&mut rng, 0);
+            std::fs::write(format!("{dir}/hostile-{n}"), text).unwrap();
+            ctx.eval();
+        }
+        ctx.nontrivial(1);
+        ctx.nontrivial(2);
+        ctx.sample(|| json!({"corpus_dir": dir}));
+        return;
+    }
+    if ctx.mode == "files" {
+        // replay of inputs found elsewhere (libFuzzer artifacts) through the monitor
+        let dir = std::env::var("SMV_DIR").expect("SMV_DIR");
+        let mut files: Vec<_> = std::fs::read_dir(&dir).map(|d| d.filter_map(Result::ok).map(|e| e.path()).collect()).unwrap_or_default();
+        files.sort();
+        for n in ctx.cases_unsharded("files", files.len() as u64) {
+            ctx.begin("files", n);
+            if let Ok(b) = std::fs::read(&files[n as usize]) {
+                run_one(ctx, "files", n, &b, &format!("file:{}", files[n as usize].display()));
+            }
+        }
+        ctx.nontrivial(1);
+        ctx.nontrivial(2);
+        ctx.sample(|| json!({"files": files.len()}));
+        return;
+    }
     let small = matches!(ctx.mode.as_str(), "miri");
     let fixtures = load_fixtures();
     ctx.note("fixtures_loaded", json!(fixtures.len()));
